@@ -338,6 +338,14 @@ class Prog:
     def alloc(self, a):
         return self._get('alloc', str(a))
 
+    def arg_types(self, key):
+        """types of the arguments of a function with a body"""
+        fn = self.fn(key)
+        return [l['ty'] for l in fn['body']['locals'][1:1 + fn['arg_count']]]
+
+    def fn_keys(self):
+        return list(self.idx['fn'])
+
     def tk(self, ty):
         k = self.ty(ty)['kind']
         return k.get('RigidTy') if isinstance(k, dict) else k
